@@ -1,24 +1,27 @@
 ---------------------------- MODULE Build ----------------------------
 (* p8tool build OUT [--S src | --empty-S]*: per-section provenance. Contents are abstract ids:
    "prev" (OUT's previous section), "p8"/"png"/"luafile" (the named source's section),
-   "empty" (the empty default). *)
+   "empty" (the empty default). The argument kind "blank" names a source cart whose sections
+   happen to equal the empty default: the result holds that source's section, i.e. "empty". *)
 EXTENDS Naturals, Sequences, FiniteSets, TLC, Json
 Sections == <<"lua", "gfx", "gff", "map", "sfx", "music">>
 SecSet == {"lua", "gfx", "gff", "map", "sfx", "music"}
-ArgKinds(s) == {"unspec", "p8", "png", "empty"} \cup (IF s = "lua" THEN {"luafile"} ELSE {})
+ArgKinds(s) == {"unspec", "p8", "png", "empty", "blank"} \cup (IF s = "lua" THEN {"luafile"} ELSE {})
 ErrKinds == {"both", "missing", "badext"}         \* --S and --empty-S; nonexistent source; wrong extension
+CONSTANT MaxSpec          \* at most this many sections named on the command line (6 = all configurations)
 VARIABLES args, out0, fmt
 vars == <<args, out0, fmt>>
 Init == /\ out0 \in {"absent", "existing"} /\ fmt \in {"p8", "png"}
-        /\ args \in [SecSet -> {"unspec", "p8", "png", "empty", "luafile", "both", "missing", "badext"}]
+        /\ args \in [SecSet -> {"unspec", "p8", "png", "empty", "blank", "luafile", "both", "missing", "badext"}]
         /\ \A s \in SecSet : args[s] \in ArgKinds(s) \cup ErrKinds
         /\ Cardinality({s \in SecSet : args[s] \in ErrKinds}) <= 1
+        /\ Cardinality({s \in SecSet : args[s] # "unspec"}) <= MaxSpec
 Next == UNCHANGED vars
 Spec == Init /\ [][Next]_vars
 Fails == \E s \in SecSet : args[s] \in ErrKinds
 Expect(s) == IF Fails THEN "untouched"
              ELSE CASE args[s] = "unspec" -> IF out0 = "existing" THEN "prev" ELSE "empty"
-                    [] args[s] = "empty" -> "empty"
+                    [] args[s] \in {"empty", "blank"} -> "empty"
                     [] OTHER -> args[s]
 Label == IF Fails THEN "untouched" ELSE IF out0 = "existing" THEN "prev" ELSE "blank"
 Emit == PrintT(ToJson([args |-> args, out0 |-> out0, fmt |-> fmt, fails |-> Fails,
